@@ -303,44 +303,72 @@ func (root *Root) resolveList(
 		result = rlist
 	case []string:
 		rlist := make([]interface{}, 0, len(list))
-		for _, s := range list {
-			rlist = append(rlist, s)
+		var v interface{}
+		for i, x := range list {
+			v, ea2 = root.resolve(x, vars, field, lt, depth)
+			Errors(ea2).in(i)
+			ea = append(ea, ea2...)
+			rlist = append(rlist, v)
 		}
 		result = rlist
 	case []int:
 		rlist := make([]interface{}, 0, len(list))
-		for _, i := range list {
-			rlist = append(rlist, i)
+		var v interface{}
+		for i, x := range list {
+			v, ea2 = root.resolve(x, vars, field, lt, depth)
+			Errors(ea2).in(i)
+			ea = append(ea, ea2...)
+			rlist = append(rlist, v)
 		}
 		result = rlist
 	case []int64:
 		rlist := make([]interface{}, 0, len(list))
-		for _, i := range list {
-			rlist = append(rlist, i)
+		var v interface{}
+		for i, x := range list {
+			v, ea2 = root.resolve(x, vars, field, lt, depth)
+			Errors(ea2).in(i)
+			ea = append(ea, ea2...)
+			rlist = append(rlist, v)
 		}
 		result = rlist
 	case []bool:
 		rlist := make([]interface{}, 0, len(list))
-		for _, b := range list {
-			rlist = append(rlist, b)
+		var v interface{}
+		for i, x := range list {
+			v, ea2 = root.resolve(x, vars, field, lt, depth)
+			Errors(ea2).in(i)
+			ea = append(ea, ea2...)
+			rlist = append(rlist, v)
 		}
 		result = rlist
 	case []float32:
 		rlist := make([]interface{}, 0, len(list))
-		for _, f := range list {
-			rlist = append(rlist, f)
+		var v interface{}
+		for i, x := range list {
+			v, ea2 = root.resolve(x, vars, field, lt, depth)
+			Errors(ea2).in(i)
+			ea = append(ea, ea2...)
+			rlist = append(rlist, v)
 		}
 		result = rlist
 	case []float64:
 		rlist := make([]interface{}, 0, len(list))
-		for _, f := range list {
-			rlist = append(rlist, f)
+		var v interface{}
+		for i, x := range list {
+			v, ea2 = root.resolve(x, vars, field, lt, depth)
+			Errors(ea2).in(i)
+			ea = append(ea, ea2...)
+			rlist = append(rlist, v)
 		}
 		result = rlist
 	case []time.Time:
 		rlist := make([]interface{}, 0, len(list))
-		for _, f := range list {
-			rlist = append(rlist, f)
+		var v interface{}
+		for i, x := range list {
+			v, ea2 = root.resolve(x, vars, field, lt, depth)
+			Errors(ea2).in(i)
+			ea = append(ea, ea2...)
+			rlist = append(rlist, v)
 		}
 		result = rlist
 	default:
